@@ -1,6 +1,7 @@
 package main
 
 import (
+	"sort"
 	"fmt"
 	"go/ast"
 	"go/token"
@@ -134,6 +135,7 @@ func (fc *FnCtx) unknownCall(name string, args []V, resTy types.Type, everything
 		fc.assumptions["external function without contract modifies only objects reachable from its arguments (by type): "+name] = true
 		for _, a := range args {
 			fc.havocReachable(a.Ty, 0)
+			fc.havocGhostsOf(a)
 		}
 		nac := fc.fresh("ac", sInt)
 		fc.assume(sx(">=", nac, fc.cur.ac))
@@ -144,6 +146,58 @@ func (fc *FnCtx) unknownCall(name string, args []V, resTy types.Type, everything
 		fc.havocked = nil
 	}
 	return fc.freshWF(resTy, "res_"+shortName(name), fc.cur)
+}
+
+// havocGhostsOf: an unknown function that is handed an object may do to it whatever the object's type allows - read
+// from a reader, write to a writer, reset a buffer. The ghost state attached to that object (the cursor of a reader, the
+// log of a writer, ...) is therefore unknown afterwards, unless the ghost is declared stable.
+func (fc *FnCtx) havocGhostsOf(a V) {
+	if a.Ty == nil || len(a.T) == 0 {
+		return
+	}
+	switch {
+	case isIface(a.Ty):
+		if len(a.T) < 2 {
+			return
+		}
+	case isPointer(a.Ty):
+	default:
+		return
+	}
+	var names []string
+	for n := range fc.e.specs.Ghosts {
+		names = append(names, n)
+	}
+	sort.Strings(names)
+	for _, n := range names {
+		g := fc.e.specs.Ghosts[n]
+		if g.Stable || g.Arg == "" {
+			continue
+		}
+		gt, err := fc.e.lookupType(g.Arg, nil)
+		if err != nil || gt == nil {
+			continue
+		}
+		compatible := types.Identical(gt, a.Ty) || isIface(a.Ty)
+		if it, ok := gt.Underlying().(*types.Interface); ok && !compatible {
+			compatible = types.Implements(a.Ty, it)
+		}
+		if !compatible {
+			continue
+		}
+		env := fc.newEnv(fc.cur, fc.entry)
+		obj := a
+		obj.Loc = nil
+		keys, srts, gid, _ := env.ghostKeys(g, obj)
+		for i, k := range keys {
+			srt := fieldSort(srts[i])
+			fc.keySort[k] = srt
+			arr := fc.heapGet(fc.cur, k, srt)
+			fc.heapSet(fc.cur, k, srt, sx("store", arr, gid, fc.fresh("hvg:"+n, srts[i])))
+			fc.noteWrite(k)
+			fc.assumptions["an external function without contract may change the ghost state ("+n+") of the objects it is handed"] = true
+		}
+	}
 }
 
 func shortName(n string) string {
